@@ -87,6 +87,12 @@ def handle (c : String) (j : Json) : Json :=
       ("shouldContinue", Json.bool (Policy.shouldContinue cfg f n)),
       ("isComplete", Json.bool (Policy.isComplete cfg s f n)),
       ("reason", reasonName (Policy.reason (if noCfg then none else some cfg) f s (s + f) n))]
+  | "policy.reason" =>
+    -- the classifier alone: arbitrary counts (completed need not be s + f), `noCfg` = `completion_config is None`
+    let cfg := cfgOf j
+    Json.mkObj [
+      ("reason", reasonName (Policy.reason (if gbool j "noCfg" then none else some cfg)
+        (gnat j "f") (gnat j "s") (gnat j "completed") (gnat j "n")))]
   | "strategy.retry" =>
     Json.mkObj [("d", optNatJ (Strategy.retryDecision (scfgOf j) (gbool j "retryable") (gnat j "a") (gnat j "jn") (gnat j "jd")))]
   | "strategy.retryable" =>
